@@ -44,10 +44,10 @@ Print Assumptions plookup_sound.
 (* The same for the walk the Go tree performs over a merged subtree
    (doGet + derefNodePtr, with its empty-hash and hash-only-leaf rules). *)
 Theorem plookup_go_sound : forall (H : bytes -> bytes), (forall x, length (H x) = HASH_SIZE) ->
-  forall p t d k,
+  forall p t fresh d k,
   prunes H p t ->
-  ((forall v, plookup_go H (N.of_nat d) k p = Found v -> lookup d k t = Some v) /\
-   (plookup_go H (N.of_nat d) k p = Absent -> lookup d k t = None)) \/ collision H.
+  ((forall v, plookup_go H fresh (N.of_nat d) k p = Found v -> lookup d k t = Some v) /\
+   (plookup_go H fresh (N.of_nat d) k p = Absent -> lookup d k t = None)) \/ collision H.
 Proof. exact plookup_go_sound_l. Qed.
 Print Assumptions plookup_go_sound.
 
@@ -57,7 +57,7 @@ Theorem proof_cannot_lie : forall (H : bytes -> bytes), (forall x, length (H x) 
   forall ver untrusted es p t,
   verify H ver (root_hash H t) untrusted es = ROk p ->
   Forall entry_wire es -> wf t -> bounded t ->
-  (forall k, agrees t k (plookup 0 k p) /\ agrees t k (plookup_go H 0 k p)) \/ collision H.
+  (forall k, agrees t k (plookup 0 k p) /\ agrees t k (plookup_go H true 0 k p)) \/ collision H.
 Proof. exact proof_cannot_lie_l. Qed.
 Print Assumptions proof_cannot_lie.
 
@@ -111,8 +111,8 @@ Theorem get_proof_complete_go_v0 : forall (H : bytes -> bytes), (forall x, lengt
   forall sib k t,
   (height t <= 129)%nat ->
   exists p, verify H 0 (root_hash H t) (root_hash H t) (build_get_proof H 0 sib k t) = ROk p /\
-            plookup_go H 0 k p <> Unknown /\
-            (plookup_go H 0 k p = of_opt (tlookup k t) \/ collision H).
+            plookup_go H true 0 k p <> Unknown /\
+            (plookup_go H true 0 k p = of_opt (tlookup k t) \/ collision H).
 Proof. exact get_proof_complete_go_v0_l. Qed.
 Print Assumptions get_proof_complete_go_v0.
 
